@@ -376,7 +376,7 @@ func genHTTPS(r *common.Rng) Case {
 	if useReal {
 		h, err := realConnectHead(in.Addr, in.User, in.Pass, c.Auth && !in.NoCreds)
 		if err != nil {
-			panic(err)
+			return Case{Kind: "mkaddr", Addr: in.Addr, Probe: err.Error()}
 		}
 		stream = h
 	} else {
